@@ -1575,6 +1575,9 @@ sexp sexp_apply (sexp ctx, sexp proc, sexp args) {
       sexp_raise("string-cursor-next: not a string", sexp_list1(ctx, _ARG1));
     else if (! sexp_string_cursorp(_ARG2))
       sexp_raise("string-cursor-next: not a string-cursor", sexp_list1(ctx, _ARG2));
+    i = sexp_unbox_string_cursor(_ARG2);
+    if ((i < 0) || (i >= (sexp_sint_t)sexp_string_size(_ARG1)))
+      sexp_raise("string-cursor-next: cursor out of range", sexp_list2(ctx, _ARG1, _ARG2));
     _ARG2 = sexp_string_cursor_next(_ARG1, _ARG2);
     top--;
     sexp_check_exception();
@@ -1584,6 +1587,11 @@ sexp sexp_apply (sexp ctx, sexp proc, sexp args) {
       sexp_raise("string-cursor-prev: not a string", sexp_list1(ctx, _ARG1));
     else if (! sexp_string_cursorp(_ARG2))
       sexp_raise("string-cursor-prev: not a string-cursor", sexp_list1(ctx, _ARG2));
+    i = sexp_unbox_string_cursor(_ARG2);
+    /* stepping back from the start is allowed and yields the cursor -1: */
+    /* the byte before the data is the non-continuation tail of a header word */
+    if ((i < 0) || (i > (sexp_sint_t)sexp_string_size(_ARG1)))
+      sexp_raise("string-cursor-prev: cursor out of range", sexp_list2(ctx, _ARG1, _ARG2));
     _ARG2 = sexp_string_cursor_prev(_ARG1, _ARG2);
     top--;
     sexp_check_exception();
